@@ -13,7 +13,7 @@ CONSTANTS
   MaxSheets = 1
   KindSeq <- KindsAll
   Rots = {1}
-  Layouts <- LayStd
+  Layouts <- LayMerge
 INVARIANTS TypeOK PlacedByRef FunctionLike MergeBlank RootShown
 CONSTRAINT Emit
 CHECK_DEADLOCK FALSE
